@@ -4,7 +4,7 @@
    proofs/UniqueProofs.v, and Print Assumptions.
    Model: models/Sort.v (introsort of sortx/zfuncversion.go over the two slices, with
    Less/Swap as the only accesses, a Less counter and explicit fuel), models/Unique.v. *)
-From Got Require Import Base Sort Unique SortProofs UniqueProofs.
+From Got Require Import Base Sort Unique SortProofs SortSorted UniqueProofs.
 Require Import Permutation Sorted.
 Local Open Scope Z_scope.
 
@@ -58,6 +58,80 @@ Theorem c15_sliceby_comparisons :
 Proof. exact (@sliceby_comparisons). Qed.
 Print Assumptions c15_sliceby_comparisons.
 
+
+(* ---------- sortedness, for every strict weak order ---------- *)
+(* "less is a strict weak order": irreflexive, transitive, incomparability transitive.
+   srt_le less x y := less y x = false  ("x is not after y") is then a total preorder. *)
+Definition c15_strict_weak_order {K : Type} (less : K -> K -> bool) : Prop :=
+  (forall x, less x x = false) /\
+  (forall x y z, less x y = true -> less y z = true -> less x z = true) /\
+  (forall x y z, less x y = false -> less y z = false -> less x z = false).
+
+(* insertionSort_func sorts its segment [a,b) *)
+Theorem c15_insertion_sorted :
+  forall (K V : Type) (less : K -> K -> bool), c15_strict_weak_order less ->
+  forall a b (s : srt_state K V) u s',
+    srt_insertion_sort less a b s = SOk (u, s') -> srt_sorted_on less (st_keys s') a b.
+Proof.
+  exact (fun K V less H => @srt_insertion_sort_sorted K V less (proj1 H) (proj1 (proj2 H)) (proj2 (proj2 H))).
+Qed.
+Print Assumptions c15_insertion_sorted.
+
+(* heapSort_func (the depth-limit fallback) sorts its segment [a,b) *)
+Theorem c15_heapsort_sorted :
+  forall (K V : Type) (less : K -> K -> bool), c15_strict_weak_order less ->
+  forall a b (s : srt_state K V) u s',
+    0 <= a -> a <= b -> srt_wf b s ->
+    srt_heap_sort less a b s = SOk (u, s') -> srt_sorted_on less (st_keys s') a b.
+Proof.
+  exact (fun K V less H => @srt_heap_sort_sorted K V less (proj1 H) (proj1 (proj2 H)) (proj2 (proj2 H))).
+Qed.
+Print Assumptions c15_heapsort_sorted.
+
+(* quickSort_func sorts [a,b) provided doPivot_func returns a three-zone partition
+   (srt_partition_ok: keys[a,mlo) <= pivot, keys[mlo,mhi) equivalent to the pivot,
+   keys[mhi,b) >= pivot, a <= mlo <= mhi <= b) *)
+Theorem c15_quicksort_sorted_given_partition :
+  forall (K V : Type) (less : K -> K -> bool), c15_strict_weak_order less ->
+  srt_partition_ok (V:=V) less ->
+  forall fuel depth a b (s : srt_state K V) u s',
+    (depth < fuel)%nat -> 0 <= a -> a <= b -> srt_wf b s ->
+    srt_quick_sort less fuel a b depth s = SOk (u, s') ->
+    srt_sorted_on less (st_keys s') a b.
+Proof.
+  exact (fun K V less H HP =>
+           @srt_quick_sort_sorted K V less (proj1 H) (proj1 (proj2 H)) (proj2 (proj2 H)) HP
+             (@srt_heap_sort_sorted K V less (proj1 H) (proj1 (proj2 H)) (proj2 (proj2 H)))).
+Qed.
+Print Assumptions c15_quicksort_sorted_given_partition.
+
+(* FULL STATEMENT (target, not proved in Coq):
+     Theorem c15_sliceby_sorted :
+       forall K V less, c15_strict_weak_order less -> forall keys vals s',
+         srt_sliceby less keys vals = SOk s' ->
+         StronglySorted (srt_le less) (firstn (Nat.min (length keys) (length vals)) (st_keys s')).
+   PROVED: the same statement under the additional hypothesis srt_partition_ok less, i.e.
+   that the model's doPivot returns a valid three-zone partition.  What is missing is the
+   lemma  dopivot_partition : c15_strict_weak_order less -> srt_partition_ok less
+   (loop invariants of the two partition loops, the ninther/medianOfThree ordering and the
+   duplicate-protection branch of srt_do_pivot).  Everything else on the path (insertion
+   sort, heap sort, the recursion of quickSort, the frame/permutation facts) is proved.
+   At run time the monitor checks sortedness of the Go result on every generated case and
+   the Go result equals the model result (keys, values, number of Less calls), so on all
+   tested inputs the conclusion holds for the model as well. *)
+Theorem c15_sliceby_sorted_partial :
+  forall (K V : Type) (less : K -> K -> bool), c15_strict_weak_order less ->
+  srt_partition_ok (V:=V) less ->
+  forall (keys : list K) (vals : list V) s',
+    srt_sliceby less keys vals = SOk s' ->
+    StronglySorted (srt_le less) (firstn (Nat.min (length keys) (length vals)) (st_keys s')).
+Proof.
+  exact (fun K V less H HP keys vals s' =>
+           @sliceby_sorted_given_partition K V less (proj1 H) (proj1 (proj2 H)) (proj2 (proj2 H))
+             keys vals s' HP).
+Qed.
+Print Assumptions c15_sliceby_sorted_partial.
+
 (* ---------- Unique ---------- *)
 
 (* UniqueInt/UniqueString never panic; the returned slice is the input with every run
@@ -98,7 +172,17 @@ Theorem c15_unique_sorted_strict :
 Proof. exact unq_collapse_sorted. Qed.
 Print Assumptions c15_unique_sorted_strict.
 
-(* non-vacuity *)
+(* non-vacuity: Z.ltb is a strict weak order; a concrete run *)
 Example c15_nonvacuous :
-  unq_unique_z [1; 1; 2; 2; 2; 3; 1; 1] = Ok ([1; 2; 3; 1], [1; 2; 3; 1; 2; 3; 1; 1]).
-Proof. exact unq_example. Qed.
+  c15_strict_weak_order Z.ltb /\
+  unq_unique_z [1; 1; 2; 2; 2; 3; 1; 1] = Ok ([1; 2; 3; 1], [1; 2; 3; 1; 2; 3; 1; 1]) /\
+  (match srt_sliceby_z 0 [3; 9; 7; 2; 100; 0; 4; 6] [0; 1; 2; 3; 4; 5; 6; 7; 8; 9] with
+   | SOk s => (st_keys s, st_vals s, st_cmp s)
+   | _ => ([], [], 0%N) end) =
+  ([0; 2; 3; 4; 6; 7; 9; 100], [5; 3; 0; 6; 7; 2; 1; 4; 8; 9], 19%N).
+Proof.
+  split; [|split; [exact unq_example|reflexivity]].
+  split; [intros x; apply Z.ltb_irrefl|]. split.
+  - intros x y z H1 H2. apply Z.ltb_lt in H1. apply Z.ltb_lt in H2. apply Z.ltb_lt. lia.
+  - intros x y z H1 H2. apply Z.ltb_ge in H1. apply Z.ltb_ge in H2. apply Z.ltb_ge. lia.
+Qed.
